@@ -625,7 +625,7 @@ impl<'a> Explorable for Model<'a> {
             }
             ops.push(Op::ChangeSet(vec![a], vec![], vec!["absent-id".into()]));
         }
-        if self.cache_ops && !s.live.is_empty() {
+        if self.cache_ops {
             ops.push(Op::Cache(None));
             ops.push(Op::Cache(Some(1)));
             ops.push(Op::Cache(Some(2)));
@@ -639,6 +639,20 @@ impl<'a> Explorable for Model<'a> {
 
     fn check_state(&self, s: &State, _depth: usize) {
         self.check(s);
+    }
+
+    fn report_panic(&self, s: &State, a: Option<&Op>, location: &str, message: &str) {
+        let mut history = s.history.clone();
+        if let Some(a) = a {
+            history.push(a.clone());
+        }
+        let tmp = State { cfg: s.cfg, router: s.router.clone(), live: s.live.clone(), history, snapshot: String::new() };
+        self.ctx.report(Violation {
+            signature: format!("panic:{location}"),
+            what: format!("the router panicked at {location}: {message} (last operation {a:?})"),
+            case: self.case(&tmp, None),
+            weight: tmp.history.len() as u64 * 100,
+        });
     }
 
     fn check_transition(&self, parent: &State, a: &Op, child: &State) {
